@@ -50,7 +50,8 @@ def value_expr(g, ty, helpers, full):
 
 
 def gen_helper_struct(g, name):
-    fields = [("p", "u32"), ("q", "String")] + ([("r", "Option<bool>")] if g.chance(1, 2) else [])
+    # declaration order is deliberately not the alphabetical order of the wire names (a schema's property map is sorted, `required` is not)
+    fields = [("q", "String"), ("p", "u32")] + ([("r", "Option<bool>")] if g.chance(1, 2) else []) + ([("a0", "bool")] if g.chance(1, 3) else [])
     src = f"#[derive(Debug, Clone, PartialEq, Default, Serialize, Deserialize)]\n#[{CFGA}derive(Schema))]\npub struct {name} {{ " + ", ".join(f"pub {f}: {t}" for f, t in fields) + " }\n"
 
     def value(g, full):
